@@ -501,6 +501,30 @@ func (g *gstate) dcacheBurst() {
 	if len(accts) > 1 {
 		g.tags["dcache.several-accounts"] = true
 	}
+	// the same paths again, two to four more rounds (first look-up = miss, later ones = hits), the caller wiping
+	// (zero=1) some of the keys it was given, sometimes a lock / unlock in between (the caller still holds the others)
+	if rng.Intn(2) == 0 {
+		for round, n := 0, 2+rng.Intn(3); round < n; round++ {
+			for _, a := range accts {
+				if a.x && !g.locked && !g.wo && strings.Contains(g.q, "d1") {
+					continue
+				}
+				ac := a.num + hardened
+				switch mode {
+				case 1:
+					ac = 0
+				case 2:
+					ac = hardened
+				}
+				g.add("dcache s=%s a=%d ac=%d b=%d i=%d zero=%d", sc, a.num, ac, b, i, rng.Intn(2))
+			}
+			if !g.locked && !g.wo && rng.Intn(6) == 0 {
+				g.add("lock")
+				g.add("unlock p=%d", g.curPriv)
+			}
+		}
+		g.tags["dcache.repeated-path-caller-wipes"] = true
+	}
 }
 
 // dropClobbered: on a tree with the `l1` defect the first account created in a custom scope overwrites that
@@ -672,6 +696,27 @@ func directed(rng *rand.Rand, q string) []core.Case {
 			"lock", "dcache s="+sc+" a=1 ac=0 b=0 i=0", "unlock p=0", "dcache s="+sc+" a=1 ac=0 b=0 i=0", "dcache s="+sc+" a=0 ac=0 b=0 i=0",
 			"dcache s="+sc+" a=7 ac=0 b=0 i=0", "restart", "unlock p=0", "dcache s="+sc+" a=1 ac=0 b=0 i=0", "props s="+sc+" a=1", "props s="+sc+" a=0",
 			"dcache s="+sc+" a=1 ac=2147483649 b=0 i=0", "dcache s="+sc+" a=0 ac=2147483649 b=0 i=0", "convertwo", "dcache s="+sc+" a=0 ac=0 b=0 i=0")
+	}
+	// DeriveFromKeyPathCache: the same path looked up again and again by a caller that wipes the keys it was given
+	// (first look-up = miss, then hits), a second account in between, keys still held while the manager locks
+	for _, sc := range []string{"84:0", "49:0"} {
+		p := "dcache s=" + sc + " a=0 ac=2147483648 b=0 i=0"
+		p1 := "dcache s=" + sc + " a=1 ac=2147483649 b=1 i=2"
+		mk("derive-cache-caller-wipes-key", "unlock p=0", "newacct s="+sc+" name=2", "next s="+sc+" a=0 n=1 int=0 h=1", p, p+" zero=1", p, p+" zero=1",
+			p1+" zero=1", p1+" zero=1", p1, p, "privkey h=1", "lock", p, "unlock p=0", p, p, p+" zero=1", p, p1, "unlock p=9", "unlock p=0", p1+" zero=1", p1,
+			"restart", "unlock p=0", "props s="+sc+" a=0", p+" zero=1", p+" zero=1", p, "lookup s="+sc+" ref=c:0:0:0 h=2", "privkey h=2")
+	}
+	// an account imported with a master key fingerprint (hardware wallet xpub): what DerivationInfo reports for the
+	// addresses issued from it — fingerprint included — when issued, on a cache hit, after MarkUsed dropped the cache
+	// entry, and after a restart; a seed account next to it (fingerprint 0)
+	for _, c := range [][2]string{{"84:0", "7"}, {"86:0", "3735928559"}, {"44:0", "1"}} {
+		sc, fp := c[0], c[1]
+		mk("xpub-fingerprint-reload", "newxpub s="+sc+" name=2 x=1 ci=2147483649 fp="+fp+" schema=-", "next s="+sc+" a=1 n=2 int=0 h=1",
+			"next s="+sc+" a=1 n=1 int=1 h=3", "next s="+sc+" a=0 n=1 int=0 h=4", "info h=1", "lookup s="+sc+" ref=c:1:0:0 h=5", "markused s="+sc+" ref=c:1:0:0",
+			"lookup s="+sc+" ref=c:1:0:0 h=6", "info h=1", "lookup s="+sc+" ref=c:1:1:0 h=7", "lookup s="+sc+" ref=c:0:0:0 h=8", "restart",
+			"lookup s="+sc+" ref=c:1:0:1 h=9", "lookup s="+sc+" ref=c:1:1:0 h=10", "lookup s="+sc+" ref=c:0:0:0 h=11", "next s="+sc+" a=1 n=1 int=0 h=12",
+			"unlock p=0", "lookup s="+sc+" ref=c:1:0:2 h=13", "markused s="+sc+" ref=c:1:0:2", "lookup s="+sc+" ref=c:1:0:2 h=14", "props s="+sc+" a=1",
+			"extend s="+sc+" a=1 last=4 int=0", "lookup s="+sc+" ref=c:1:0:4 h=15", "restart", "lookup s="+sc+" ref=c:1:0:4 h=16", "lookup s="+sc+" ref=c:1:0:2 h=17")
 	}
 	if !strings.Contains(q, "d1") {
 		// a cached imported (xpub) account has no private key: refused, the manager keeps working
